@@ -722,6 +722,11 @@ def evaluate__idiv_operator(self: XPathToken, context: ta.ContextType = None) ->
             return 1
         elif op2 == 0:
             raise self.error('FOAR0001') from None
+        elif isinstance(err, InvalidOperation) and \
+                isinstance(op1, (int, Decimal)) and isinstance(op2, (int, Decimal)):
+            # the quotient has more digits than the precision of the decimal context,
+            # but the result is an xs:integer: compute it exactly
+            return math.trunc(Fraction(op1) / Fraction(op2))
         raise self.error('FOAR0002', err) from None
 
 
